@@ -492,10 +492,13 @@ def rule_R13(src, ed, lo, hi, fname):
     for i in range(lo, hi - 3):
         if _skipped(i):
             continue
-        if toks[i].text == "self" and toks[i + 1].text == "." and toks[i + 2].kind == "ident" \
+        if toks[i].text == "self" and toks[i + 1].text == "." and toks[i + 2].kind == "ident" and toks[i + 2].text in F64_FIELDS \
                 and toks[i + 3].text in ("==", "!=", "<", ">", "<=", ">=") and (i == lo or toks[i - 1].text not in (".", "&")):
             ed.insert(toks[i].pos, "__idf(", order=2, rule="R13 %s: `self.%s %s ..`" % (fname, toks[i + 2].text, toks[i + 3].text))
             ed.insert(toks[i + 2].end, ")", order=-2)
+
+
+F64_FIELDS = []   # set per function from the unit (`f64_fields`): struct fields of type f64
 
 
 RULES = {"R13": rule_R13, "R12": rule_R12, "R2": rule_R2, "R9": rule_R9, "R1": rule_R1, "R3": rule_R3, "R7": rule_R7, "R8": rule_R8, "R10": rule_R10}
@@ -609,6 +612,7 @@ def extract_fn(src, loc, spec, ed):
             apply_slice(src, ed, loops_all[k]["open"], loops_all[k]["close"], tbl, "%s loop #%d" % (name, k), spec.get("forbidden", ()))
             abstracted.append(loops_all[k])
     # body rules (not inside abstracted statements: overlapping edits are rejected by Edits.apply)
+    F64_FIELDS[:] = spec.get("f64_fields", [])
     for r in spec.get("rules", ["R3", "R1", "R9", "R12", "R13", "R10"]):
         RULES[r](src, ed, brace + 1, close, name)
     del SKIP[:]
@@ -780,6 +784,7 @@ def extract_block_as_fn(src, loc, spec, ed):
             if k >= len(depth_loops):
                 raise Undecided("lost anchor: inner loop #%d of %s" % (k, name))
             apply_slice(src, ed, depth_loops[k]["open"], depth_loops[k]["close"], tbl, "%s loop #%d" % (name, k), spec.get("forbidden", ()))
+    F64_FIELDS[:] = spec.get("f64_fields", [])
     for r in spec.get("rules", ["R3", "R1", "R9", "R12", "R13", "R10"]):
         RULES[r](src, ed, b_open + 1, b_close, name)
     del SKIP[:]
